@@ -15,6 +15,7 @@
 from __future__ import annotations
 
 import ast
+import re
 import itertools
 
 from ..cfg import CFG, ENTRY, EXIT, header_parts
@@ -266,6 +267,17 @@ def rule_missing(ctx: Ctx) -> None:  # noqa: C901, PLR0915
     else:
         ctx.add("3-missing", ps, ps.node, None, "UNDECIDED: chain _existing_and_missing_indices -> _MapSpecArgs not recognised", key="existing-missing")
     allm = [r for r in roles if r == "all-missing"]
+    # vectorised spellings of the same decision: the per-output masks (True = missing) must be combined with OR
+    mask_names = {t.id for a_ in walk_no_nested(ei.node) if isinstance(a_, ast.Assign) and "mask_linear(" in norm(a_.value) for t in a_.targets if isinstance(t, ast.Name)}
+    par_ei = _parents(ei.node)
+    for c_ in [c_ for c_ in ast.walk(ei.node) if isinstance(c_, ast.Call)]:
+        fn_t = norm(c_.func)
+        on_masks = any(isinstance(x, ast.Name) and x.id in mask_names for a_ in c_.args for x in ast.walk(a_)) or (isinstance(c_.func, ast.Attribute) and isinstance(c_.func.value, ast.Name) and c_.func.value.id in mask_names)
+        negated = isinstance(par_ei.get(id(c_)), ast.UnaryOp) and isinstance(par_ei[id(c_)].op, (ast.Invert, ast.Not))
+        if on_masks and not negated and (fn_t.endswith("logical_and.reduce") or fn_t in ("np.all", "numpy.all") or (isinstance(c_.func, ast.Attribute) and c_.func.attr == "all" and isinstance(c_.func.value, ast.Name))):
+            allm.append("all-missing")
+        elif on_masks and not negated and (fn_t.endswith("logical_or.reduce") or fn_t in ("np.any", "numpy.any") or (isinstance(c_.func, ast.Attribute) and c_.func.attr == "any" and isinstance(c_.func.value, ast.Name))):
+            roles = [*roles, "missing"]
     ctx.tri("3-missing", ei, ei.node, "missing" in roles and not allm, bool(allm), "an element is missing if ANY of its outputs is missing",
             "an element counts as missing only if ALL of its outputs are missing: an element whose later output was never written is taken as stored", "classification not recognised", key="any-missing")
     d = Defs(ps)
@@ -393,8 +405,43 @@ def rule_gate_like_with_like(ctx: Ctx) -> None:
     ctx.add("6-gate", create, gate, True, f"gate call found; {len(passed & stored)} value(s) are both compared and recorded, {n} of them rebound in create", key="gate-scan")
 
 
+def rule_three_valued(ctx: Ctx) -> None:
+    """`equal_dicts` answers True / False / None ("could not compare"); the gate resumes on None.  A local holding such an
+    answer may be tested for truth only where None has been excluded - `not x` is also true for None, which turns "could not
+    compare" into "differs" and refuses to resume a run whose inputs simply are not comparable (arrays of strings/objects)."""
+    from ..flow import guard_facts
+
+    P = ctx.prog
+    n = 0
+    for mn in ("pipefunc.map._run_info", "pipefunc.map._prepare", "pipefunc.map._run"):
+        for fn in P.functions_in(mn):
+            tri_vars: dict[str, ast.AST] = {}
+            for a in walk_no_nested(fn.node):
+                if isinstance(a, ast.Assign) and len(a.targets) == 1 and isinstance(a.targets[0], ast.Name) and isinstance(a.value, ast.Call):
+                    for callee in ctx.cg.resolve_callable(fn, a.value.func):
+                        r = callee.node.returns
+                        if r is not None and re.fullmatch(r"bool \| None|None \| bool|Optional\[bool\]", norm(r)):
+                            tri_vars[a.targets[0].id] = a
+            if not tri_vars:
+                continue
+            cfg = ctx.cfg(fn)
+            d = Defs(ast.Module(body=[], type_ignores=[]))
+            for st in cfg.nodes(lambda s_: isinstance(s_, (ast.If, ast.While, ast.Assert))):
+                test = cfg.stmt[st].test
+                for name in tri_vars:
+                    truthy = [x for x in ast.walk(test) if isinstance(x, ast.Name) and x.id == name] and not any(isinstance(c_, ast.Compare) and any(isinstance(x, ast.Name) and x.id == name for x in ast.walk(c_)) for c_ in ast.walk(test))
+                    if not truthy:
+                        continue
+                    n += 1
+                    facts = guard_facts(cfg, d, st)
+                    excluded = any(t == f"{name} is None" and not pol for t, pol in facts)
+                    ctx.add("6-gate", fn, cfg.stmt[st], excluded, f"`{name}` is tested for truth only after None was handled" if excluded else
+                            f"`{norm(test)[:40]}` tests the three-valued `{name}` (True / False / None = could not compare) for truth where it can still be None: 'could not compare' is treated as 'differs' and an identical re-run is refused", key=f"three-valued {fn.name}.{name} {norm(test)[:30]}")
+    ctx.floor("6-gate.three-valued", n, 2)
+
+
 def check(ctx: Ctx) -> None:
-    for rule in (rule_atomic, rule_guarded, rule_missing, rule_no_delete, rule_propagate, rule_gate_like_with_like):
+    for rule in (rule_atomic, rule_guarded, rule_missing, rule_no_delete, rule_propagate, rule_gate_like_with_like, rule_three_valued):
         ctx.run(rule)
 
 
